@@ -4,10 +4,12 @@ import (
 	"encoding/json"
 	"encoding/xml"
 	"fmt"
+	"runtime"
 	"sort"
 	"strconv"
 	"strings"
 	"sync"
+	"sync/atomic"
 
 	restful "github.com/emicklei/go-restful/v3"
 
@@ -173,7 +175,7 @@ func c05(ctx *core.Ctx) {
 	defer restful.DefaultResponseContentType("")
 	registered := []string{restful.MIME_JSON, restful.MIME_XML}
 	phases := []string{"builtin", "+text/plain", "+application/x-verif", "+concurrent"}
-	headersPer := ctx.N(40, 400)
+	headersPer := ctx.N(300, 3000)
 	caseIdx := 0
 	for pi, phase := range phases {
 		switch pi {
@@ -199,6 +201,48 @@ func c05(ctx *core.Ctx) {
 			close(start)
 			wg.Wait()
 			registered = []string{restful.MIME_JSON, "application/x-c0", "application/x-c3", "application/x-c7", "application/x-c5"}
+			// more rounds of concurrent registration; every type registered must be usable afterwards
+			rounds := ctx.N(60, 600)
+			for round := 0; round < rounds; round++ {
+				var wg sync.WaitGroup
+				var ready, goFlag int32
+				types := make([]string, 8)
+				for k := range types {
+					types[k] = fmt.Sprintf("application/x-r%d-%d", round, k)
+					wg.Add(1)
+					go func(m string) {
+						defer wg.Done()
+						atomic.AddInt32(&ready, 1)
+						for atomic.LoadInt32(&goFlag) == 0 {
+							runtime.Gosched()
+						}
+						restful.RegisterEntityAccessor(m, customAccessor{m})
+					}(types[k])
+				}
+				for atomic.LoadInt32(&ready) < 8 {
+					runtime.Gosched()
+				}
+				atomic.StoreInt32(&goFlag, 1)
+				wg.Wait()
+				c := restful.NewContainer()
+				ws := new(restful.WebService).Path("/reg")
+				for k, m := range types {
+					ws.Route(ws.GET(fmt.Sprintf("/t%d", k)).Produces(m).To(func(req *restful.Request, resp *restful.Response) {
+						resp.WriteEntity(negEntity{A: "x", N: 7})
+					}))
+				}
+				c.Add(ws)
+				for k, m := range types {
+					req := rt.Req{Method: "GET", Path: fmt.Sprintf("/reg/t%d", k), HasAcc: true, Accept: m}
+					out := rt.Run(c, rt.Dispatch, &req)
+					ctx.Eval(1)
+					ctx.Count("concurrently_registered_types_checked", 1)
+					if ct := out.Rec.Hdr().Get("Content-Type"); out.Status != 200 || ct != m {
+						ctx.Violation(-1, "c05:registration-lost", fmt.Sprintf("accessor for %q was registered (8 concurrent RegisterEntityAccessor calls) but a route producing it answered status %d Content-Type %q", m, out.Status, ct),
+							map[string]interface{}{"round": round, "type": m, "status": out.Status, "content_type": ct})
+					}
+				}
+			}
 		}
 		for _, def := range []string{"", restful.MIME_JSON, restful.MIME_XML} {
 			restful.DefaultResponseContentType(def)
